@@ -107,7 +107,13 @@ def generate(rng, seed, part):
             ops.append({"op": "merge", "a": a, "amount": rng.choice([2, 3]), "inplace": rng.random() < 0.5,
                         "out": nodes})
             nodes += 1
-        elif r < 0.67 and ndim == 2:
+        elif r < 0.70:
+            ops.append({"op": "assign", "a": a, "what": rng.choice(["frequencies", "errors2"]),
+                        "values": rng.choice(["quarter", "double_int", "float32", "same"])})
+        elif r < 0.73 and ndim == 2:
+            ops.append({"op": "accumulate", "a": a, "axis": rng.choice([0, 1]), "out": nodes})
+            nodes += 1
+        elif r < 0.77 and ndim == 2:
             ops.append({"op": "partial_normalize", "a": a, "axis": rng.choice([0, 1]), "inplace": rng.random() < 0.5,
                         "out": nodes})
             nodes += 1
@@ -378,6 +384,36 @@ def execute(plan, ctx):
                               f"normalize on dtype {pre_dtype} gave {res.dtype}")
             if not op["inplace"]:
                 nodes[op["out"]] = res
+        elif o == "assign":
+            f = np.asarray(getattr(a, op["what"]))
+            vals = {"quarter": f * 0.25, "double_int": (f * 2), "float32": f.astype(np.float32) * 0.5,
+                    "same": f.copy()}[op["values"]]
+
+            def do_assign():
+                setattr(a, op["what"], vals)
+            ok, res = attempt(do_assign)
+            ctx.ev("n", f"assign:{op['what']}:{op['values']}", op["a"], "ok" if ok else exc_tag(res))
+            ctx.abstract("assign", op["what"], op["values"], str(pre_dtype), ok)
+            if not ok:
+                ctx.probe("assign_failed:" + type(res).__name__)
+                continue
+            consistent(ctx, a, f"assign-{op['what']}")
+            got = np.asarray(getattr(a, op["what"]), dtype=np.float64)
+            if not np.allclose(got, np.asarray(vals, dtype=np.float64), rtol=1e-6, atol=0):
+                ctx.violation("C13/no-truncation", f"C13/assignment-truncated/{op['what']}/{pre_dtype}",
+                              f"h.{op['what']} = {np.asarray(vals).tolist()} on dtype {pre_dtype} stored {got.tolist()}")
+        elif o == "accumulate":
+            if ndim < 2:
+                continue
+            ok, res = attempt(a.accumulate, op["axis"])
+            ctx.ev("n", "accumulate", op["a"], "ok" if ok else exc_tag(res))
+            ctx.abstract("accumulate", str(pre_dtype), ok)
+            if not ok:
+                ctx.probe("accumulate_failed:" + type(res).__name__)
+                continue
+            consistent(ctx, res, "accumulate")
+            consistent(ctx, a, "accumulate-operand")
+            nodes[op["out"]] = res
         elif o == "partial_normalize":
             if type(a).__name__ != "Histogram2D":
                 continue
